@@ -27,6 +27,7 @@ type Env struct {
 	depth int
 	loopOld *Snapshot
 	inLoop  bool
+	loopHead *loopInfo
 	renaming bool
 }
 
@@ -193,6 +194,12 @@ func (ex *Exec) identVal(name string, env *Env) (Val, bool) {
 			base = name[:i]
 			fmt.Sscanf(name[i+1:], "%d", &k)
 		}
+		if env.inLoop && env.loopHead != nil && base != "rangeindex" && env.fr.fn != nil && ex.rangeKeyName(env.fr, env.loopHead) == base {
+			// in a clause of a range loop the key variable means "the next index" (its cell holds the previous one)
+			if v, ok := ex.loopFormAlias(env, name); ok {
+				return v, true
+			}
+		}
 		if cs := env.fr.cellsBy[base]; len(cs) > 0 {
 			c := cs[len(cs)-1]
 			if k >= 0 && k < len(cs) {
@@ -208,6 +215,12 @@ func (ex *Exec) identVal(name string, env *Env) (Val, bool) {
 		if p, ok := env.fr.params["&"+name]; ok {
 			if rp, isRef := p.(RefPtr); isRef && rp.Elem != nil {
 				return ex.loadLoc(ex.resolve(rp)), true
+			}
+		}
+		// loop clauses written for the other form of the same loop:  rangeindex <-> explicit counter
+		if env.inLoop && env.loopHead != nil {
+			if v, ok := ex.loopFormAlias(env, name); ok {
+				return v, true
 			}
 		}
 		// the variable was renamed since the contract was written: resolve it by position and type
